@@ -1,0 +1,67 @@
+//go:build verif
+
+package sparse
+
+// Contracts for the deductive verifier under /verif (comment-only; build tag verif).
+
+// ---- sparse sets (C03: lookahead sets are unions of sparse sets) ----
+
+// inSets(sets, n, x): x occurs in one of the first n sets
+//@ pred inSets(sets []Set, n int, x int) = exists i in 0..n :: exists j in 0..len(sets[i]) :: sets[i][j] == x
+//@ pred inSet(s Set, n int, x int) = exists j in 0..n :: s[j] == x
+//@ pred valuesBelow(s Set, n int) = forall j in 0..len(s) :: 0 <= s[j] && s[j] < n
+//@ pred distinct(s Set) = forall p in 0..len(s) :: forall q in p+1..len(s) :: s[p] != s[q]
+
+// Builder: "seen" is exactly the set of values in "result", which holds no value twice.
+//@ pred wfBuilder(b *Builder) = distinct(b.result) && valuesBelow(b.result, 32*len(b.seen)) && forall k in 0..32*len(b.seen) :: bit(b.seen, k) <==> inSet(b.result, len(b.result), k)
+
+//@ func Builder.Add
+//@   option slice-wf
+//@   requires wfBuilder(b) && 0 <= val && val < 32*len(b.seen)
+//@   modifies b.result, b.result[0:cap(b.result)], b.seen[0:len(b.seen)]
+//@   ensures wfBuilder(b) && inSet(b.result, len(b.result), val)
+//@   ensures forall k in 0..old(len(b.result)) :: b.result[k] == old(b.result[k])
+//@   ensures len(b.result) == old(len(b.result)) + (old(bit(b.seen, val)) ? 0 : 1)
+
+// Build hands out the collected set and leaves an empty, reusable builder (all bits cleared again).
+//@ func Builder.Build
+//@   requires wfBuilder(b)
+//@   modifies b.result, b.seen[0:len(b.seen)]
+//@   ensures sameslice(result, old(b.result)) && len(b.result) == 0 && wfBuilder(b)
+//@   loop 1:
+//@     invariant 0 <= @i && @i <= len(b.result) && sameslice(b.result, old(b.result)) && distinct(b.result) && valuesBelow(b.result, 32*len(b.seen))
+//@     invariant forall k in 0..32*len(b.seen) :: bit(b.seen, k) <==> (exists j in @i..len(b.result) :: b.result[j] == k)
+
+// Union: with a zeroed scratch bit set that is large enough, the result holds no value twice, every
+// value of it comes from one of the sets, the scratch set is zeroed again, and the result never
+// shares memory with the reuse buffer (the caller overwrites that buffer on its next call). Unless the
+// result is the largest argument itself (the shortcut taken when the union is no larger than it), it
+// also holds every value of every set.
+//@ func Union
+//@   option slice-wf
+//@   requires forall i in 0..len(sets) :: forall j in 0..len(sets[i]) :: 0 <= sets[i][j] && sets[i][j] < 32*len(aux)
+//@   requires forall k in 0..32*len(aux) :: !bit(aux, k)
+//@   requires forall i in 0..len(sets) :: otherarray(sets[i], reuse)
+//@   modifies aux[0:len(aux)], reuse[0:cap(reuse)]
+//@   ensures forall k in 0..32*len(aux) :: !bit(aux, k)
+//@   ensures len(sets) == 0 ==> len(result) == 0
+//@   ensures forall k in 0..len(result) :: inSets(sets, len(sets), result[k])
+//@   ensures len(result) > 0 ==> otherarray(result, reuse)
+//@   ensures (exists i in 0..len(sets) :: sameslice(result, sets[i])) || (distinct(result) && forall i in 0..len(sets) :: forall j in 0..len(sets[i]) :: inSet(result, len(result), sets[i][j]))
+//@   loop 1:
+//@     invariant 0 <= @i && @i <= len(sets) && 0 <= largest && largest < len(sets) && 0 <= maxSize
+//@     invariant distinct(ret) && valuesBelow(ret, 32*len(aux)) && (fresh(ret) || (samearray(ret, reuse) && cap(ret) == cap(reuse)))
+//@     invariant forall k in 0..len(ret) :: inSets(sets, @i, ret[k])
+//@     invariant forall k in 0..32*len(aux) :: bit(aux, k) <==> inSet(ret, len(ret), k)
+//@     invariant forall i in 0..@i :: forall j in 0..len(sets[i]) :: inSet(ret, len(ret), sets[i][j])
+//@   loop 2:
+//@     invariant sameslice(set, sets[@i1]) && @i1 < len(sets)
+//@     invariant 0 <= @i && @i <= len(set) && 0 <= largest && largest < len(sets) && 0 <= maxSize
+//@     invariant distinct(ret) && valuesBelow(ret, 32*len(aux)) && (fresh(ret) || (samearray(ret, reuse) && cap(ret) == cap(reuse)))
+//@     invariant forall k in 0..len(ret) :: inSets(sets, @i1 + 1, ret[k])
+//@     invariant forall k in 0..32*len(aux) :: bit(aux, k) <==> inSet(ret, len(ret), k)
+//@     invariant forall i in 0..@i1 :: forall j in 0..len(sets[i]) :: inSet(ret, len(ret), sets[i][j])
+//@     invariant forall j in 0..@i :: inSet(ret, len(ret), set[j])
+//@   loop 3:
+//@     invariant 0 <= @i && @i <= len(ret) && distinct(ret) && valuesBelow(ret, 32*len(aux))
+//@     invariant forall k in 0..32*len(aux) :: bit(aux, k) <==> (exists j in @i..len(ret) :: ret[j] == k)
